@@ -320,15 +320,15 @@ Inductive consumer := ProxyStream | ProxyBuffered | Fastcgi.
    ErrMaxBytesExceeded in the RoundTrip error with errors.Is (casket bdcc677; before, by ==), so
    however net/http hands the body error back (unchanged for a chunked upload, wrapped in a
    *net.OpError ("readfrom") when the request has a Content-Length) the answer is 413;
-   with several upstreams and try_duration the body is buffered first and any
-   read error answers 400; fastcgi's client ignores the error of io.Copy(stdin, body) and relays
+   with several upstreams and try_duration the body is buffered first: the too-large error of
+   newBufferedBody answers 413 (casket c877bef; before, 400 like any other read error); fastcgi's client ignores the error of io.Copy(stdin, body) and relays
    whatever the responder says (200 here) *)
 Definition consumer_status (k : consumer) (cl_framed : bool) (e : option rerr) (backend_status : Z) : Z :=
   match e with
   | Some TooLarge =>
     match k with
     | ProxyStream => 413
-    | ProxyBuffered => 400
+    | ProxyBuffered => 413
     | Fastcgi => backend_status
     end
   | _ => backend_status
